@@ -169,8 +169,8 @@ _AS_BUILT = {
          ' As built: r8 is the evaluated normaliser rule (no variable of the evaluated tree unbound or captured), r9 the evaluated typing rules incl. ill-typed-operand scenarios, r10 declaration-variable reads.',
          'NOT decided: that every structure the evaluator dereferences is implied by the accepting typing rule for whole expressions (decided per construct on a bounded type universe only). Known findings (3): evaluator refuses silently for declarations / anonymous function definitions (unknownError).'),
  'C03': ('; ' + E4 + ' of each Vi* typing rule over all operand-type vectors of a bounded universe against reference rules, including vectors with an ill-typed operand; scope discipline and recursion typing evaluated',
-         ' As built: r6 value-class table, r7 scope discipline, r8 type algebra (lub), r9 typing rules of 16 constructs (every operand is visited on every path: found ViFilter skipping its parameters for an empty argument, repaired), recursion typing.',
-         'Principal types of whole expressions are decided per construct on a bounded universe (depth <= 2, arity <= 3), not for arbitrary nesting. Not decided (audit findings, DESIGN 9.7): template instantiation from an any-typed argument, the declared argument list when argument domains re-use names, the fixed point of recursion typing.'),
+         ' As built: r4 declared arguments (the argument visitors and scope functions interpreted on argument lists whose domains open scopes of their own), r6 value-class table, r7 scope discipline, r8 type algebra (lub, template instantiation incl. any-typed arguments), r9 typing rules of 16 constructs (every operand is visited on every path), recursion typing against the sound rule (least type covering initial value and step, fixed point required).',
+         'Principal types of whole expressions are decided per construct on a bounded universe (depth <= 2, arity <= 3), not for arbitrary nesting. Five audit findings (filter parameters skipped, recursion typed by its step, template parameters left un-instantiated by an any-typed argument, declared arguments read through stale positions) were decided by r4/r8/r9 and repaired.'),
  'C05': ('; ' + E4 + ' of the lexer base (token data) for numbers',
          ' As built: r6 ConvertTo, r7 LITERALS-REPRESENTABLE (shared C06 r9): a literal / index the token data cannot hold is refused, never wrapped into a number that prints differently.',
          'The family is finite (quick: witness operands; thorough: all 13233 tree-grammar sentences). Not decided (audit findings, DESIGN 9.7): Greek letters inside global identifiers, transliterations that collide with ASCII keywords.'),
@@ -184,11 +184,11 @@ _AS_BUILT = {
          ' As built: r6 generator evaluation, r7 views, r8 SELF-REFERENCE: an object whose member refers back to the object is never copied or moved memberwise (found RSCore::cstList bound to the source after a copy, repaired).',
          'Does not decide list order after arbitrary MoveBefore sequences beyond what the priority table implies.'),
  'C12': ('; MergeWith interpreted on small schemas (mention sequences); TRANSLATE-ONCE call-graph rule; admissible-table evaluation',
-         ' As built: r5 is the evaluated merge (every constituent copied and recorded, every mention renamed exactly once), r6 admissible table, r7 TRANSLATE-ONCE (shared C08 r8).',
-         'Correctness and type preservation of the resulting schema are value-level and not decided. Not decided (audit findings, DESIGN 9.7): duplicate elimination can leave a translation pointing at an erased constituent; dependency loops are prechecked per pair only; the typification comparison can throw or not terminate on inadmissible tables.'),
+         ' As built: r5 is the evaluated merge (every constituent copied and recorded, every mention renamed exactly once), r6 admissible table, r7 TRANSLATE-ONCE (shared C08 r8), r8 TRANSLATION-CLOSED (duplicate elimination interpreted on schemas with chains of duplicates: every erased constituent is mapped to a survivor).',
+         'Correctness and type preservation of the resulting schema are value-level and not decided. Not decided (audit findings, DESIGN 9.7): dependency loops are prechecked per pair only; the typification comparison can throw or not terminate on inadmissible tables.'),
  'C13': ('; graph closures of the interpreted CGraph (shared C14 r8); admissibility of a selection evaluated over all kinds',
          ' As built: r6 uses the evaluated ExpandInputs/ExpandOutputs/InputsFor/Sort, r7 selection admissibility.',
-         'Preservation of correctness status and typification of each copied constituent is value-level and not decided. Not decided (audit findings, DESIGN 9.7): renumbering can capture a dangling name; a dependency loop created by an edit stays VERIFIED in the source schema (Schema::TriggerParse).'),
+         'Preservation of correctness status and typification of each copied constituent is value-level and not decided. Not decided (audit findings, DESIGN 9.7): renumbering can give a dangling mention a meaning; a base set with a definition bypasses the closure test (arguable). The stale-status finding (a loop created by an edit stays VERIFIED) is decided by C07 r6 and repaired.'),
  'C14': ('; ' + E4 + ' of all of CGraph on every graph over three items, named shapes on 4-6 items, erase/re-add/replace histories and every single further update, both visiting orders of unordered sets, against the mathematical graph',
          ' As built: r8 GRAPH-EVALUATED decides exactness of every query as data on the bounded family (membership, edges, inputs, counts, reachability incl. the diagonal, cycles, cycle groups = SCCs containing a cycle, topological order validity, closures, Sort); r1-r5, r7 recognise today\'s algorithm forms for graphs of any size and defer to r8 when the form is different but every evaluated answer is right.',
          'Exactness beyond the bounded family rests on the structural rules (only when today\'s forms are recognised). One finding (IsReachableFrom(x,x) on a longer cycle) repaired.'),
@@ -211,9 +211,15 @@ _AS_BUILT = {
          ' As built: r5 Substr, r6 Trim, r7 Split / IsInteger evaluated on every string of a bounded family over 1-4 byte code points, Merge as a whole function.',
          'String functions are decided on bounded families (length <= 4 code points quick), not for unbounded strings. An independent audit (differential fuzzing) found no violation.'),
 }
+_AS_BUILT['C07'] = ('; AUDIT-ON-RESET-STATE dominance rule for the incremental path',
+         ' As built: r5 graph update (shared C14), r6 AUDIT-ON-RESET-STATE - every Schema::ParseCst call is dominated by a bulk reset of the parse records of the edited constituent\'s dependants closure, as in the from-scratch analysis (found: a dependency loop created by an edit stayed VERIFIED; repaired).',
+         'Frozen exception: Schema::SetDefinitionFor skips refresh only on the branch where FindExpr(new text) returns the constituent itself (identical syntax tree; token positions of the previous text are kept - an audit finding judged a deliberate optimisation). Equality of results with a fresh build as data is not decided.')
+_AS_BUILT['C11'] = ('; PRUNE-AGAINST-NEW-TYPES order rule; STRUCTURE-GUARD dominance rule for E()/T()/B() in the model layer',
+         ' As built: r9 value sources, r10 structure data is pruned after the schema change that alters typifications - also for an erasure (found: Erase pruned only before; repaired), r11 STRUCTURE-GUARD: every E()/T()/B() access in the model layer is dominated by a test of the structure of that very object (found: data and a changed typification walked in parallel; repaired).',
+         'Does not decide that recalculated values are equal to fresh ones (value-level).')
 for _k, (_tech, _text, _note) in _AS_BUILT.items():
     CHECKS[_k]['technique'] += _tech
     CHECKS[_k]['text'] += _text
     CHECKS[_k]['note'] = _note
 NOTES += (' Round 3: whole components are interpreted from their source on bounded families (StructuredData, CGraph, Normalizer with SyntaxTree editing, MergeWith, lexer token data, reference scanning); '
-          'shape recognisers defer to them instead of alarming on an unrecognised form. 30 genuine defects decided by the checks were repaired in /repo (known_findings.json, status fixed); 4 remain listed as known.')
+          'shape recognisers defer to them instead of alarming on an unrecognised form. 48 fix: commits in /repo repair genuine defects decided by the checks (known_findings.json, status fixed); 4 remain listed as known; the audit findings no check decides are listed in DESIGN.md 9.7 and not claimed.')
